@@ -309,6 +309,8 @@ func (c *Conn) Read(p []byte) (int, error) {
 	if len(p) == 0 {
 		return 0, nil
 	}
+	// an io.Reader may return the last bytes together with the error; drawn before blocking
+	eofWithData := (c.Kind == "pipe" || c.Kind == "serial") && dsim.Choose(2) == 1
 	for {
 		if c.isClosed() {
 			return 0, &net.OpError{Op: "read", Net: c.Kind, Err: errClosed}
@@ -330,9 +332,15 @@ func (c *Conn) Read(p []byte) (int, error) {
 			}
 			copy(p, h.buf[:n])
 			h.buf = h.buf[n:]
+			last := len(h.buf) == 0 && h.wclosed
 			h.mu.Unlock()
 			poke(h.wwake)
 			rec("net", c.Name+" read", int64(c.ID), int64(n))
+			if last && eofWithData {
+				dsim.Probe("fault:data-with-eof")
+				rec("net", c.Name+" read EOF (with data)", int64(c.ID))
+				return n, io.EOF
+			}
 			return n, nil
 		}
 		if h.wclosed {
